@@ -16,6 +16,8 @@ mod config;
 mod metrics;
 pub mod testonly;
 mod v2_chonky_bft;
+#[cfg(feature = "verif")]
+pub mod verif;
 
 // Renaming network messages for clarity.
 #[allow(missing_docs)]
